@@ -251,7 +251,9 @@ func (t *ImmutableTree) Iterate(fn func(key []byte, value []byte) bool) (bool, e
 			return true, nil
 		}
 	}
-	return false, nil
+	// an iterator that failed is invalid as well: do not report a partial
+	// iteration as complete
+	return false, itr.Error()
 }
 
 // Iterator returns an iterator over the immutable tree.
